@@ -7,3 +7,10 @@ Theorem C20_logdet_sum : forall l : list R, Forall (fun a => 0 < a) l ->
   ln ((rprod l) ^ 2) = 2 * rsum (map ln l).
 Proof. exact logdet_from_diag. Qed.
 Print Assumptions C20_logdet_sum.
+
+(* the repaired branch above MAX_DIM_INV reports sum_i ln(l_i + e) over the non-zero eigenvalues (e = sqrt(eps)):
+   between the pseudo-log-determinant and pseudo-log-determinant + e * trace(P^+) -- the tolerance of the harness oracle *)
+Theorem C20_logdet_regularised_bound : forall (l : list R) (e : R), Forall (fun a => 0 < a) l -> 0 < e ->
+  0 <= rsum (map (fun a => ln (a + e)) l) - rsum (map ln l) <= e * rsum (map Rinv l).
+Proof. exact logdet_regularised_bound. Qed.
+Print Assumptions C20_logdet_regularised_bound.
